@@ -161,6 +161,10 @@ def write_struct(representation_code: RepresentationCode, value: Any) -> bytes:
         # floats are not looked up in the cache: 0.0 and -0.0 compare (and hash) equal but are encoded differently
         return _write_struct(representation_code, value)
 
+    if representation_code in (RepresentationCode.OBNAME, RepresentationCode.OBJREF):
+        # references are not cached per object: the identity of an object can change (origin reference)
+        return _write_struct(representation_code, value)
+
     return _write_struct_cached(representation_code, value)
 
 
